@@ -911,8 +911,9 @@ class ImpEqToMacro(Macro):
         return Thm(concl, tuple(hyp for hyp in pt.hyps if hyp not in disjs))
     
     def get_proof_term(self, args, prevs):
+        # The last argument is the goal, the others are the literals to introduce
         disjs = []
-        for arg in args:
+        for arg in args[:-1]:
             if arg.is_not():
                 disjs.append(arg.arg)
             else:
